@@ -79,5 +79,20 @@ def main(a) -> int:
                 if harness:
                     bad += 1
         return 1 if bad else 0
-    print("usage: check selftest determinism [IDs...] | digests ID N JOBS")
+    if rest and rest[0] == "noalarm":
+        pids = rest[1:] or [p for p in ALL if os.path.exists(os.path.join(VERIF, "props", p.lower() + ".py"))]
+        seeds = [int(x) for x in os.environ.get("VERIF_SELFTEST_SEEDS", "1,2,3,4,5,6,7,8,9,10,11,12").split(",")]
+        bad = 0
+        for pid in pids:
+            rc = []
+            for sd in seeds:
+                env = dict(os.environ, VERIF_SEED=str(sd), VERIF_NO_EVIDENCE="1")
+                p = subprocess.run([os.path.join(VERIF, "check"), pid, "--tier", a.tier], env=env, capture_output=True, text=True, timeout=3600)
+                rc.append(p.returncode)
+                if p.returncode != 0:
+                    bad += 1
+                    print(f"noalarm {pid} VERIF_SEED={sd}: exit {p.returncode}\n" + "\n".join(l[:300] for l in p.stdout.splitlines() if "VIOLATION" in l or "HARNESS" in l or "class=" in l))
+            print(f"noalarm {pid}: seeds {seeds[0]}..{seeds[-1]} exits={rc}")
+        return 1 if bad else 0
+    print("usage: check selftest determinism [IDs...] | noalarm [IDs...] | digests ID N JOBS")
     return 2
